@@ -2720,7 +2720,7 @@ impl DocumentType for XmlDocumentType {
                 .unwrap()
                 .declaration
                 .borrow()
-                .entities()
+                .binding_entities()
                 .iter()
                 .cloned()
                 .map(XmlEntity::from)
